@@ -19,14 +19,14 @@ KEYS = ['a', 'a/b', 'ab', 'b']
 # GETINFO key names Tor really has: dots, '$', '+', '*', '~', '-' are all legal in them
 ODD_KEYS = ['ip-to-country/1.2.3.4', 'ns/id/$ABCD', 'dir/status/fp/A+B', 'net/listeners/*', 'md/name/x~y', 'address-mappings/all', 'ns/name/a.b']
 CRIT = ['', 'x', 'x y', '=', 'a=b', 'b=1', 'k=v w', '"', '"x"', '"x y"', "'q'", '250 OK', '250', 'OK', '.', '..', '650 a',
-        ' x', 'x ', '5']
+        ' x', 'x ', '5', 'Jos\u00e9 <j@x>']      # (last: 8-bit text, sent as UTF-8)
 CRIT_SMALL = ['', 'x y', 'b=1', '"x"', 'OK', '250 OK', '.', 'a=b']
-ML_LINES = ['x', '.', '..', '.x', '...', '.a..b', ' .', 'k=v', 'a=v', '250 OK', 'OK', '', 'x y']
+ML_LINES = ['x', '.', '..', '.x', '...', '.a..b', ' .', 'k=v', 'a=v', '250 OK', 'OK', '', 'x y', 'contact Jos\u00e9']
 # replies mixing single-line keys and data blocks; no block line starts with "<a requested key>=" (that reading is
 # ambiguous once the reply is joined, see the line-repeats-key finding)
 MIX_SINGLE = ['x', 'k=v w', '']
 MIX_BLOCKS = [('x',), ('x=y', 'z'), ('id=',), ('', 'w Bandwidth=12'), ('q', 'zz=1 2', '.')]
-CONF_VALUES = ['', 'x', 'a b', 'k=v', '"q"', 'OK', '250 OK', 'Opt=1', '0']
+CONF_VALUES = ['', 'x', 'a b', 'k=v', '"q"', 'OK', '250 OK', 'Opt=1', '0', 'Jos\u00e9']
 
 
 def feat_value(v):
